@@ -26,6 +26,11 @@ CHECKS = {
                      "(152 today) and must be discharged; loops must be finite-iterator or strictly descending cursor loops; recursion only in the walker on strict "
                      "sub-terms. Decides absence of local panics for all accepted files; panics inside dependencies and stack depth are not decided.",
                 note=_MIR + "; specs/c04_justified.json (9 reasoned entries with mechanical side conditions); dependencies total on valid arguments"),
+    "C05": dict(level="other", design_ref="5/C05 + section 8.1", technique="detector summaries (reported access path + guard formula) extracted from MIR and compared with the written spec by ROBDD implication (static analysis; validation of code against specs/detectors.spec)",
+                text="For each of the 11 detectors: the reported locations and their conditions as formulas over access-path atoms (helpers and flags expanded) satisfy "
+                     "MUST => code => MUST-NOT envelope of DESIGN section 8.1; searched kinds and roots are part of the paths. increment_decrement: ALL minus EXEMPT with "
+                     "EXEMPT = prefix forms below statements of unchecked blocks. The numeric meaning of power-of-two is std's is_power_of_two on the parsed literal.",
+                note=_MIR + "; the oracle is specs/detectors.spec (DESIGN section 8); C01 for 'anywhere in the file'"),
     "C09": dict(level="other", design_ref="5/C09", technique="gate formulas extracted from MIR guards, evaluated as formulas over the version triple against the lexicographic spec on a finite grid; guard analysis of the pragma selection (static analysis)",
                 text="Decides each gate as a boolean formula over (major, minor, patch) — exactly on the partition the constants induce (quick) and on the whole grid "
                      "0.0.0..2.12.41 (thorough) — complementarity of pre/post, that only a directive named solidity yields a version, and that no version means no report. "
